@@ -75,6 +75,24 @@ type backendExec struct {
 	s3f      *fakeS3
 	written  map[string]map[string][]byte // per backend: what a successful Store wrote
 	failed   bool                         // the last op had an injected backend error
+	held     []heldBytes                  // what earlier Loads returned (the caller still holds it)
+}
+
+// heldBytes: a byte slice an earlier Load returned, and a private copy of what it held then.
+type heldBytes struct {
+	what string
+	got  []byte
+	copy []byte
+}
+
+// checkHeld: what a Load returned belongs to the caller; no later call of the backend may change it.
+func (e *backendExec) checkHeld() string {
+	for _, h := range e.held {
+		if !bytes.Equal(h.got, h.copy) {
+			return "the bytes returned by an earlier load (" + h.what + ") changed during a later backend call"
+		}
+	}
+	return ""
 }
 
 const s3Bucket, s3Prefix = "bucket-b", "pre/fix-"
@@ -107,6 +125,9 @@ func (e *backendExec) Exec(line string) (obs, viol string) {
 		if p := recover(); p != nil {
 			obs = "panic " + fmt.Sprint(p)
 			viol = "backend call panicked: " + obs
+		}
+		if viol == "" {
+			viol = e.checkHeld()
 		}
 	}()
 	ctx := context.Background()
@@ -203,6 +224,9 @@ func (e *backendExec) Exec(line string) (obs, viol string) {
 		}
 		if !bytes.Equal(b, want) {
 			viol = fmt.Sprintf("load returned %d bytes that differ from the %d bytes written", len(b), len(want))
+		}
+		if len(e.held) < 64 {
+			e.held = append(e.held, heldBytes{t[1] + " " + t[2], b, append([]byte(nil), b...)})
 		}
 		return "ok " + hexOrDash(b), viol
 	}
